@@ -120,11 +120,10 @@ func (c *Ctx) isNewHelper(f *ssa.Function, depth int) bool {
 	if knownFuncs[core.FuncName(f)] {
 		return false
 	}
-	top := f
-	for top.Parent() != nil {
-		top = top.Parent()
+	if f.Parent() != nil {
+		return true // a closure the rules do not know: part of the function that creates it
 	}
-	if o := top.Object(); o != nil && o.Exported() {
+	if o := f.Object(); o != nil && o.Exported() {
 		return false
 	}
 	return true
